@@ -1494,6 +1494,92 @@ Section Update.
       intros q0 Hq. discriminate.
     - apply loadable_kept; auto.
   Qed.
+  (* ---------------------------------------------------------------- well-formedness carries over *)
+  (* needed to iterate the result along a history of updates: a value that could be in storage under
+     the old program could also be in storage under the new one *)
+  Lemma fields_preserved q d0 d1 fns fvs :
+    find_local old q = Some d0 -> find_local new q = Some d1 -> checked e d0 d1 ->
+    forallb (fun ft => match vget fns fvs (fst ft) with
+                       | Some fv => has_type acct xc F old fv (snd ft)
+                       | None => false
+                       end) (dfields d0) = true ->
+    (forall x, In x fvs -> value_ok x) ->
+    forallb (fun ft => match vget fns fvs (fst ft) with
+                       | Some fv => has_type acct xc F new fv (snd ft)
+                       | None => false
+                       end) (dfields d1) = true.
+  Proof.
+    intros Fo F1 K1 W2 Okf.
+    apply forallb_forall. intros [f t'] Hft. simpl.
+    destruct (check_fields_loop_nil _ _ _ (ck_fields _ _ _ K1) f t' Hft) as [t [Gt Et]].
+    apply fields_by_identifier_In in Gt.
+    pose proof (forallb_In _ _ W2 (f, t) Gt) as Q. simpl in Q.
+    destruct (vget fns fvs f) as [fv|] eqn:Vg; [|discriminate].
+    unfold has_type in *.
+    destruct (resolve_ty acct old t) as [s0|] eqn:Ro; [|discriminate].
+    pose proof (wf_types _ _ Wn d1 (find_local_in _ _ _ F1)) as T1.
+    pose proof (wf_types _ _ Wo d0 (find_local_in _ _ _ Fo)) as T0.
+    unfold decl_types_ok in T0, T1.
+    apply andb_true_iff in T0 as [T0 _]. apply andb_true_iff in T1 as [T1 _].
+    pose proof (forallb_In _ _ T0 (f, t) Gt) as T0'. simpl in T0'.
+    pose proof (forallb_In _ _ T1 (f, t') Hft) as T1'. simpl in T1'.
+    apply andb_true_iff in T0' as [_ T0']. apply andb_true_iff in T1' as [T1' _].
+    destruct (resolves_new t t' s0 Et) as [s1 Rn]; auto.
+    { intros n Hn. apply (forallb_In _ _ T1'); auto. }
+    rewrite Rn.
+    eapply has_sty_preserved; eauto.
+    - intros n Hn. apply (forallb_In _ _ T0'); auto.
+    - apply Okf. eapply vget_In; eauto.
+  Qed.
+
+  Theorem wf_value_preserved : forall v,
+    wf_value acct xc F old v = true -> value_ok v -> wf_value acct xc F new v = true.
+  Proof.
+    induction v as [b| |x IHx|l IHl|ks vs IHk IHv|q fns fvs IHf|q r|l p|s|s] using value_ind';
+      simpl; intros W Ok; auto.
+    - eapply (forallb_mono (wf_value acct xc F old) _ value_ok); [ | eassumption | ].
+      + intros x Hx. rewrite Forall_forall in IHl. apply IHl; auto.
+      + intros x Hx. eapply value_ok_arr; eauto.
+    - apply andb_true_iff in W as [W1 W2]. apply andb_true_iff. split.
+      + eapply (forallb_mono (wf_value acct xc F old) _ value_ok); [ | eassumption | ].
+        * intros x Hx. rewrite Forall_forall in IHk. apply IHk; auto.
+        * intros x Hx. eapply value_ok_keys; eauto.
+      + eapply (forallb_mono (wf_value acct xc F old) _ value_ok); [ | eassumption | ].
+        * intros x Hx. rewrite Forall_forall in IHv. apply IHv; auto.
+        * intros x Hx. eapply value_ok_vals; eauto.
+    - destruct (find_local old q) as [d0|] eqn:Fo; [|discriminate].
+      apply andb_true_iff in W as [W W3]. apply andb_true_iff in W as [W1 W2].
+      assert (not_removed q) as NR by (apply Ok; simpl; auto).
+      assert (class3 (dk d0) = true) as C3 by (destruct (dk d0); simpl in *; auto; discriminate).
+      destruct (kept_pair q d0 Fo C3) as [d1 [F1 K1]].
+      { intros r n Hq. right. eapply NR; eauto. }
+      rewrite F1.
+      repeat (apply andb_true_iff; split).
+      + rewrite <- (ck_kind _ _ _ K1). exact W1.
+      + eapply fields_preserved; eauto. intros x Hx. eapply value_ok_fields; eauto.
+      + eapply (forallb_mono (wf_value acct xc F old) _ value_ok); [ | eassumption | ].
+        * intros x Hx. rewrite Forall_forall in IHf. apply IHf; auto.
+        * intros x Hx. eapply value_ok_fields; eauto.
+    - destruct (find_local old q) as [d0|] eqn:Fo; [|discriminate].
+      apply andb_true_iff in W as [W W3]. apply andb_true_iff in W as [W1 W2].
+      pose proof W1 as W1'. apply dkind_eqb_eq in W1'.
+      assert (not_removed q) as NR by (apply Ok; simpl; auto).
+      assert (class3 (dk d0) = true) as C3 by (rewrite W1'; auto).
+      destruct (kept_pair q d0 Fo C3) as [d1 [F1 K1]].
+      { intros r' n Hq. right. eapply NR; eauto. }
+      rewrite F1. rewrite <- (ck_kind _ _ _ K1), W1, W2. simpl.
+      apply Z.leb_le in W2. apply Z.ltb_lt in W3.
+      destruct (onth (dcases d0) r) as [c|] eqn:On.
+      + pose proof (enum_prefix _ _ _ _ (ck_enum _ _ _ K1) On) as On1.
+        unfold onth in On1. destruct (r <? 0) eqn:Lr; [discriminate|].
+        assert (nth_error (dcases d1) (Z.to_nat r) <> None) as NN by congruence.
+        apply nth_error_Some in NN. apply Z.ltb_lt. lia.
+      + exfalso. unfold onth in On.
+        destruct (r <? 0) eqn:Lr; [apply Z.ltb_lt in Lr; lia|].
+        apply nth_error_None in On. lia.
+    - apply loadable_kept; auto.
+    - apply loadable_kept; auto.
+  Qed.
 End Update.
 
 (* the boolean guard used in the property statement implies the Prop-level one *)
@@ -1514,4 +1600,59 @@ Theorem usable_preserved_b acct xc old new F v :
   usable acct xc F old new v = true.
 Proof.
   intros. eapply usable_preserved; eauto. apply mentions_removed_ok; auto.
+Qed.
+
+Theorem wf_value_preserved_b acct xc old new F v :
+  validate acct old new = [] ->
+  wf_scope acct old = true -> wf_scope acct new = true ->
+  iface_confs_kept acct old new = true ->
+  ents_kept old new = true ->
+  no_import_capture acct old new = true ->
+  mentions_removed new v = false ->
+  wf_value acct xc F old v = true ->
+  wf_value acct xc F new v = true.
+Proof.
+  intros. eapply wf_value_preserved; eauto. apply mentions_removed_ok; auto.
+Qed.
+
+(* ------------------------------------------------------------------ histories of updates *)
+Definition step_ok (acct : acct_names) (old new : program) : Prop :=
+  validate acct old new = [] /\ wf_scope acct old = true /\ wf_scope acct new = true
+  /\ iface_confs_kept acct old new = true /\ ents_kept old new = true
+  /\ no_import_capture acct old new = true.
+
+(* P, then the versions of l one after the other, each update accepted *)
+Fixpoint chain_ok (acct : acct_names) (P : program) (l : list program) : Prop :=
+  match l with
+  | [] => True
+  | Q :: r => step_ok acct P Q /\ chain_ok acct Q r
+  end.
+
+Fixpoint all_usable (acct : acct_names) (xc : ext_confs) (F : nat) (P : program) (l : list program)
+         (v : value) : Prop :=
+  match l with
+  | [] => True
+  | Q :: r => usable acct xc F P Q v = true /\ all_usable acct xc F Q r v
+  end.
+
+Lemma last_default {A} (r : list A) : forall x d d', last (x :: r) d = last (x :: r) d'.
+Proof. induction r as [|y r IH]; intros x d d'; [reflexivity|]. simpl in *. apply (IH y). Qed.
+
+Lemma last_cons {A} (r : list A) Q P : last (Q :: r) P = last r Q.
+Proof. destruct r as [|y r]; [reflexivity|]. change (last (Q :: y :: r) P) with (last (y :: r) P). apply last_default. Qed.
+
+Theorem chain_preserved acct xc F v : forall l P,
+  chain_ok acct P l ->
+  (forall Q, In Q l -> mentions_removed Q v = false) ->
+  wf_value acct xc F P v = true ->
+  all_usable acct xc F P l v /\ wf_value acct xc F (last l P) v = true.
+Proof.
+  induction l as [|Q r IH]; intros P C M W.
+  { simpl. split; auto. }
+  destruct C as [[S1 [S2 [S3 [S4 [S5 S6]]]]] C].
+  assert (mentions_removed Q v = false) as MQ by (apply M; left; auto).
+  assert (wf_value acct xc F Q v = true) as WQ by (eapply wf_value_preserved_b; eauto).
+  destruct (IH Q C (fun X HX => M X (or_intror HX)) WQ) as [A B].
+  rewrite last_cons. split; auto.
+  simpl. split; auto. eapply usable_preserved_b; eauto.
 Qed.
